@@ -8,7 +8,7 @@ def closure_part(chk, keys, quick_plan=((4, 100000, 240), (5, 2500, 60)), thorou
     plan = quick_plan if chk.quick() else thorough_plan
     res = []
     for ns, cap, budget in plan:
-        r = ring.explore(chk, ns, cap, budget_s=budget)
+        r = ring.explore(chk, ns, cap, budget_s=budget, stop_keys=keys)
         res.append(r)
         chk.failures += [f for f in r["fails"] if f.key in keys]
         chk.cov["evaluations"] += r["transitions"]
